@@ -91,18 +91,31 @@ def sparse_event(rng):
             "pts": [[p[0], p[1], zq(p[2])] for p in P], "queries": queries, "paths": paths}
 
 
+def flat_event(rng):
+    from gscrib.heightmaps import FlatHeightMap
+    m = FlatHeightMap()
+    queries = [[x, y, zq(m.get_depth_at(x, y))] for x, y in ((rng.randint(-50, 50), rng.randint(-50, 50)) for _ in range(10))]
+    paths = []
+    for _ in range(3):
+        line = [rng.randint(-20, 20) for _ in range(4)]
+        pts = m.sample_path([float(v) for v in line])
+        paths.append({"line": [v * 1000 for v in line], "pts": [[zq(p[0]), zq(p[1]), zq(p[2])] for p in pts], "requery": [], "cand": []})
+    return {"kind": "flat", "w": 0, "h": 0, "max": 1, "scale": 1000, "tol": 0, "img": [], "pts": [], "queries": queries, "paths": paths}
+
+
 def _chunk(job):
     sd, k, per = job
     ev = []
     for i in range(per):
         rng = random.Random(sd * 6007 + k + i)
         ev.append(raster_event(rng) if (k + i) % 2 == 0 else sparse_event(rng))
+    ev.append(flat_event(random.Random(sd * 3 + k)))
     return ev
 
 
 class P(flow.Plan):
     pid = "C19"
-    clauses = ["C19_Pixel", "C19_RasterPath", "C19_RasterDrop", "C19_Sparse", "C19_SparsePath", "C19_SparseDrop"]
+    clauses = ["C19_Pixel", "C19_RasterPath", "C19_RasterDrop", "C19_Sparse", "C19_SparsePath", "C19_SparseDrop", "C19_Flat"]
     trace_module = "HeightmapTrace"
     assumptions = ["heights in 10^-3 units (float32 normalisation and spline reproduction at knots are far below that)",
                    "raster lines have integer ends; the dropped samples judged are the pixels the line certainly visits",
@@ -150,6 +163,7 @@ class P(flow.Plan):
         mk(r, "C19_RasterDrop", lambda e: e.__setitem__("tol", 0) or [p.__setitem__("pts", [p["pts"][0], p["pts"][-1]]) for p in e["paths"]])
         mk(s, "C19_Sparse", lambda e: e["queries"][0].__setitem__(2, e["queries"][0][2] + 7))
         mk(s, "C19_SparsePath", lambda e: [p["pts"].pop(0) for p in e["paths"]])
+        mk(flat_event(rng), "C19_Flat", lambda e: e["paths"][0]["pts"][1].__setitem__(2, 5))
         mk(s, "C19_SparseDrop", lambda e: e.__setitem__("tol", 1) or [p.__setitem__("pts", [p["pts"][0], p["pts"][-1]]) for p in e["paths"]])
         return out
 
